@@ -572,6 +572,9 @@ def do_replay(binp, prop, tier, engine, path, tmp):
             print("VIOLATION property=%s replay=%s" % (prop, path))
             return 1
     print("replay did not reproduce a violation of %s (classes seen: %s)" % (prop, [v["class"] for v in r.get("violations") or []]))
+    if os.environ.get("VERIF_SHOW_TRACE"):
+        print("abort=%s probes=%s" % (r.get("abort"), json.dumps(r.get("probes"))))
+        print("\n".join(r.get("events") or []))
     return 0
 
 def report(prop, tier, engines, seed, recs, crashed, bins, tmp, t0, build_s, planned):
